@@ -40,7 +40,9 @@ MANIFEST = dict(
          "(harness/hl_harness.c + hl_print_ops.h) on generated lists for every n from 1 to text length + 2 and against "
          "`pdsh -q/-Q -w` of a scratch build near the 1024-byte boundary; the real code is also judged by the property "
          "text restated on observables, which yields the failing (list, n) as replay. The form of the truncation test "
-         "of hostlist_deranged_string (D14) is probed on every run and the model runs in that variant.",
+         "of hostlist_deranged_string (D14) and of list_push_hostlist's retry condition (D2/F14-XLOOP) is probed on every "
+         "run and the model runs in those variants; the parser model used for the round trip runs in the variant probed "
+         "by harness/consts/hostlist.c.",
     design_ref="DESIGN.md section 5 C14, section 6 D14 / F14-META",
     note="Lean 4.33 kernel; axioms propext/Classical.choice/Quot.sound at most (audited per theorem every run); "
          "hand-written model tied to hostlist.c / opt.c by differential execution of the real sources built from "
@@ -203,11 +205,8 @@ def sweep_lists(ctx, pr, cases, exact, cov, dist):
                 judge_sweep(ctx, kind, recs, len(text), ent, dict(case, text=text[:300].decode("latin1")), dist)
             # parse back (real parser in process; Lean parser in the model)
             ib, mb = names["pback " + kind], mnames["pback " + kind]
-            # (`ub:` / `diverge` = the parser model's recorded defects D18/D25, C01/C15's concern and probed there)
-            # outside the round trip's domain (names with brackets etc.) the two parsers are compared by C01/C15 only:
-            # what they do with stray brackets depends on the parser's defect switches (D22), probed there
-            if ib.split()[:2] != mb.split()[:2] and not mb.startswith(("ub:", "diverge")) and \
-                    not (meta_name(recs) or meta_prefix(recs)):
+            # the Lean parser runs in the probed variant (Cfg.probed): the two parsers must agree on every printed text
+            if ib.split()[:2] != mb.split()[:2] and not (mb.startswith("ub:") and ib.startswith("crash")):
                 ctx.disagreement("print model (Lean parser) vs hostlist_create on the printed text (%s)" % kname(kind),
                                  "impl `%s` model `%s`" % (ib[:200], mb[:200]), case)
             if not (c["origin"] == "raw" and empty_name):
@@ -287,7 +286,7 @@ def big_lists(ctx, pr, dist):
         if d is None:
             continue
         recs = d[1]
-        m = ctx.model("print", "list %s\nptext r\npback r\n" % ans[-3], args=["model", pr.variant])
+        m = ctx.model("print", "list %s\nptext r\npback r\n" % ans[-3], args=pr.margs())
         if m[1].split()[:2] != ans[-2].split() or m[2].split()[:2] != ans[-1].split()[:2]:
             ctx.disagreement("print model vs hostlist.c (big records)", "impl %s model %s" % (ans[-2:], m[1:]), case)
         dist["parseback"] += 1
@@ -372,7 +371,7 @@ def cli_check(ctx, pr, gen, dist, cov, only=None):
         if meta_name(recs) or meta_prefix(recs) or long_name(recs):
             continue                      # names with brackets left after two expansions: outside plain target words
         m = ctx.model("print", "list %s\npcli %s\nptext %s\n" % (ans[1], flag[1], "d" if flag == "-Q" else "r"),
-                      args=["model", pr.variant])
+                      args=pr.margs())
         full = unhx(m[2].split()[1])
         mline, _, moob = m[1].partition(":")
         case = {"origin": "cli", "flag": flag, "expr_hex": hx(s), "ops": ["create " + hx(s)],
@@ -405,39 +404,67 @@ def cli_check(ctx, pr, gen, dist, cov, only=None):
                 ctx.offender("cli-truncation-not-marked" + fill, "pdsh %s with a %d-byte target text prints `..%s`" %
                              (flag, len(full), line[-50:].decode("latin1")), case)
     if only is None:
-        xlist_check(ctx, pr, cli, dist)
+        xlist_check(ctx, pr, cli, dist, cov)
 
 
-def xlist_check(ctx, pr, cli, dist):
-    """`-w -^file`: the excluded list is re-serialised by list_push_hostlist into 4096 bytes (n-1 = 4095 given)"""
-    for want in (4093, 4094, 4095, 4097):
-        names, total, i = [], 0, 0
-        while total < want:
-            left = want - total - (1 if names else 0)
-            ln = 7 if left >= 9 else left
-            nm = ((b"%c%x" % (97 + i % 26, i)) + b"z" * ln)[:ln]
-            nm = nm[:-1] + b"z" if nm[-1:].isdigit() else nm
-            names.append(nm)
-            total += ln + (1 if len(names) > 1 else 0)
-            i += 1
-        path = os.path.join(cli.cwd, "xfile%d" % want)
-        with open(path, "wb") as f:
-            f.write(b"\n".join(names) + b"\n")
+def xlist_names(want):
+    """ungroupable 7-byte names whose compressed text has exactly `want` bytes"""
+    names, total, i = [], 0, 0
+    while total < want:
+        left = want - total - (1 if names else 0)
+        ln = 7 if left >= 9 else left
+        nm = ((b"%c%x" % (97 + i % 26, i)) + b"z" * ln)[:ln]
+        nm = nm[:-1] + b"z" if nm[-1:].isdigit() else nm
+        names.append(nm)
+        total += ln + (1 if len(names) > 1 else 0)
+        i += 1
+    return names, total
+
+
+def xlist_run(ctx, cli, want, timeout):
+    """pdsh -q -w keep1,keep2,LAST -w -^file, the file holding names whose text has `want` bytes and LAST being the
+    last of them: LAST is excluded iff the WHOLE text reaches the exclusion list"""
+    names, total = xlist_names(want)
+    path = os.path.join(cli.cwd, "xfile%d" % want)
+    with open(path, "wb") as f:
+        f.write(b"\n".join(names) + b"\n")
+    cls, line = cli.targets("-q", ["-w", "keep1,keep2," + names[-1].decode(), "-w", "-^" + path], timeout=timeout)
+    return names, total, cls, line
+
+
+def xlist_check(ctx, pr, cli, dist, cov):
+    """`-w -^file`: the excluded list is re-serialised by list_push_hostlist into 4096 bytes (n-1 = 4095 given).
+    Which form of its retry condition the code under test contains (D2 / F14-XLOOP: `(n*=2 < 0x7fffff)` never grows
+    the buffer) is probed first: a 4095-byte text either hangs (unchanged) or is handled (repaired)."""
+    _, _, pcls, _ = xlist_run(ctx, cli, 4095, 3)
+    pr.xvariant = "unchanged" if pcls == "timeout" else "fixed"
+    cov.setdefault("variant_detected", {})["D2/F14-XLOOP repaired ((n *= 2) < 0x7fffff)"] = pr.xvariant == "fixed"
+    ctx.log("list_push_hostlist behaves as the `%s` variant: the model runs with that switch" % pr.xvariant)
+    wants = [4093, 4094, 4095, 4097]
+    if pr.xvariant == "fixed" or not ctx.quick():
+        wants += [8190, 8191, 9000, 20000]          # one and two doublings, exact fill of the doubled buffer
+    for want in wants:
+        names, total, cls, line = xlist_run(ctx, cli, want, 3 if pr.xvariant == "unchanged" else 20)
         recs = [Rec(nm, 0, 0, 0, True) for nm in names]
         m = ctx.model("print", "list %d %d %s\npxlist\n" % (len(recs), len(recs), " ".join(r.field() for r in recs)),
-                      args=["model", pr.variant])
-        cls, line = cli.targets("-q", ["-w", "keep1,keep2," + names[0].decode(), "-w", "-^" + path], timeout=3)
+                      args=pr.margs())
         dist["cli"] += 1
         dist["calls"] += 1
         case = {"origin": "cli-xlist", "exclusion_text_bytes": total, "hosts_in_file": len(names)}
         if (cls == "timeout") != (m[1] == "diverge"):
             ctx.disagreement("print model (list_push_hostlist) vs pdsh -w -^file", "pdsh %s model %s" % (cls, m[1][:40]), case)
+        elif cls == "ok":
+            excluded = names[-1] in unhx(m[1]).split(b",")
+            mline = b"keep[1-2]" if excluded else b"keep[1-2]," + names[-1]
+            if line != mline:
+                ctx.disagreement("print model (list_push_hostlist) vs pdsh -w -^file", "pdsh lists `%s` model `%s`" %
+                                 (line[:60], mline[:60]), case)
         if cls == "timeout":
             ctx.offender("cli-xlist-timeout" + (":text>=4095" if total >= 4095 else ""),
                          "pdsh -q -w .. -w -^file does not end when the excluded list's text has %d bytes" % total, case)
         elif cls != "ok" or line != b"keep[1-2]":
-            ctx.offender("cli-xlist-wrong", "pdsh -q -w keep1,keep2,%s -w -^file: %s `%s`" %
-                         (names[0].decode(), cls, (line or b"")[:80].decode("latin1")), case)
+            ctx.offender("cli-xlist-wrong", "pdsh -q -w keep1,keep2,%s -w -^file (%d-byte exclusion text): %s `%s`" %
+                         (names[-1].decode(), total, cls, (line or b"")[:80].decode("latin1")), case)
 
 
 def load_corpus():
